@@ -222,4 +222,56 @@ theorem ticks_QI (s : State) (h1 : ∀ a b, B (.timing a b) = false) (h2 : ∀ a
 
 end top
 
+/-- **a frame of kind `B` is written only as the frame being forwarded**: every `B`-frame in the log after `forward`
+    was there before, or is the forwarded frame itself -/
+theorem forward_sends_self (cfg : Cfg) {B : Body → Bool} (hB : Tag cfg B) (n : Nat) (s : State) (f : Frame) :
+    ∀ p ∈ dataSends B (forward cfg n s f).out, p ∈ dataSends B s.out ∨ p.2 = f := by
+  cases n with
+  | zero => intro p hp; left; simpa [forward] using hp
+  | succ n =>
+    have ih := forward_ok cfg hB n
+    unfold forward
+    split
+    · intro p hp; exact Or.inl hp
+    · have qc : dataSends B (countMsg cfg s f.mtype).out = dataSends B s.out := by rw [countMsg_out]
+      dsimp only
+      split
+      · intro p hp; left
+        rw [(logAt_ok cfg hB ih 40 (countMsg cfg s f.mtype)).2, qc] at hp; exact hp
+      · split
+        · intro p hp; left
+          rw [(logAt_ok cfg hB ih 40 (countMsg cfg s f.mtype)).2, qc] at hp; exact hp
+        · intro p hp
+          rw [(deliver_ok cfg hB ih f _ (countMsg cfg s f.mtype)).2, qc] at hp
+          rcases List.mem_append.mp hp with h | h
+          · exact Or.inl h
+          · right
+            split at h
+            · obtain ⟨u, _, rfl⟩ := List.mem_map.mp h; rfl
+            · cases h
+
+theorem fwdTop_sends_self (cfg : Cfg) {B : Body → Bool} (hB : Tag cfg B) (s : State) (f : Frame) :
+    ∀ p ∈ dataSends B (fwdTop cfg s f).out, p ∈ dataSends B s.out ∨ p.2 = f :=
+  forward_sends_self cfg hB _ s f
+
+/-- the I/O part of a round writes no `B`-frame when `B` is false on acknowledgements, CLIENT_INFO and client data -/
+theorem io_QI (cfg : Cfg) {B : Body → Bool} (hB : Tag cfg B) (hc : CtlIO B) (hack : B .ack = false)
+    (hd : ∀ k, B (.data k) = false) (s : State) (a : Bool) (w : List Nat) (rs : List Read) :
+    QE B s (ioStep cfg s a w rs) := by
+  unfold ioStep
+  split
+  · dsimp only
+    have ha : QE B s (if a then acceptStep cfg s else s) := by
+      split
+      · exact accept_QI cfg hB hc _
+      · exact QE.refl B s
+    have hw : ∀ wl, QE B s { (if a then acceptStep cfg s else s) with wlist := wl } := fun wl => ha.trans (QE_same rfl)
+    have hr : ∀ (rds : List Read) (s0 : State), QE B s0 (readAll cfg rds s0) := by
+      intro rds
+      induction rds with
+      | nil => intro s0; exact QE.refl B s0
+      | cons rd rest ih => intro s0; unfold readAll; exact (readOne_QI cfg hB hc hack s0 rd (hd _)).trans (ih _)
+    exact (hw _).trans (hr _ _)
+  · exact QE.refl B s
+
 end Pyrtma.Mgr
